@@ -334,6 +334,7 @@ class Profiles:
             self._profilesProperties.clear()
             self._rawProfiles.clear()
             del self._profileNames[:]
+            self._defaultProfiles = None
             # no profile left: only the predefined macros remain in force
             self._resetProperties()
         else:
@@ -350,6 +351,11 @@ class Profiles:
                 raise NoSuchProfileException('No profile %r.' % profile)
 
             else:
+                if self._defaultProfiles and profile in self._defaultProfiles:
+                    # a removed profile cannot be a default profile any longer
+                    self._defaultProfiles = [
+                        p for p in self._defaultProfiles if p != profile
+                    ] or None
                 if reset:
                     # reset properties as macros were removed
                     self._resetProperties()
